@@ -31,6 +31,7 @@ SPECIAL_TITLES = [
     "Mississippi to Tennessee", "assesses 10000 bananas", "aaaa bbbb", "abababab cdcdcd", "1111 2222 3333", "xxxxx", "zzz zz z",
     "a b c d", "x y", "q", "counterrevolutionaries unite", "donaudampfschifffahrtsgesellschaft", "pneumonoultramicroscopicsilicovolcanoconiosis",
     "t-shirt xl", "wi-fi router", "e-mail", "micro biology", "night light", "power-bank usb", "3d printer 4k", "usb2 hub", "no.5 chanel",
+    "500ml bottle 12v 1kg", "Größe XL", "Süße Grüße", "Élégant cœur", "Bäckerstraße 5",
     "daddy puppy mummy", "sense tests sensors", "bell bela pikk", "radar level civic",
 ]
 
@@ -582,7 +583,7 @@ def gen_ranking_cases(lang, rnd, ncases):
             sid = c.new_store(lang)
             t = rnd.choice([u, u + " " + x])
             hi = rnd.randint(1, RMAX)
-            recs = [(1, t, hi), (2, t, rnd.randint(0, hi - 1))]
+            recs = [(1, t, hi), (2, t, hi - 1 if rnd.random() < 0.5 else rnd.randint(0, hi - 1))]
             if order:
                 recs.reverse()
             for rid, tt, r in recs:
@@ -984,7 +985,7 @@ def gen_registry_cases(rnd, ncases, pools, toks, length=30):
                 c.op(op="markers", sid=1000 + i, l=cps(l), r=cps(rr))
             else:
                 q = random_query(L["lang"], rnd, L["titles"], toks) if L["titles"] and rnd.random() < 0.8 else rnd.choice(["", " ", "a", "zz"])
-                c.search(1000 + i, q, tag="sa%d" % i)
+                c.search(1000 + i, q, tag="sa%d" % i, want=["qtok", "fresh"])
                 c.op(op="r_search", id=i, q=cps(q))
         cases.append(c)
     return cases
@@ -1032,5 +1033,75 @@ def gen_markup_cases(lang, rnd, titles, toks, ncases):
             qs += [late, late[:4], late + " " + words[0]]
         for q in qs:
             c.search(sid, q)
+        cases.append(c)
+    return cases
+
+
+def gen_table_cases(lang, rnd):
+    """every composition pair and every reduction of the language's tables (spec/Langs.tla), alone and inside a word, in
+    both tokenisers and as stored titles that are searched for: the tables themselves are part of the specification"""
+    tab = LANGTAB[lang]
+    cases = []
+    c = Case("C15", "tables", lang=lang)
+    strings = []
+    for a, b in tab["compose"]:
+        strings += [a, [120] + a + [121], b, a + a]
+    for a, b in tab["reduce"]:
+        strings += [a, [120] + a + [121], a + a]
+    for w in tab["function_words"]:
+        strings += [w["w"], w["w"] + [120], [120, 32] + w["w"] + [32, 121]]
+    for s_ in strings:
+        c.op(op="tok", lang=lang, text=s_, kind="r")
+        c.op(op="tok", lang=lang, text=s_, kind="q")
+    cases.append(c)
+    return cases
+
+
+def gen_table_store_cases(lang, rnd, prop="C02"):
+    """titles built around each composition pair / reduction of the language, stored decomposed and precomposed"""
+    tab = LANGTAB[lang]
+    cases = []
+    items = [(a, b) for a, b in tab["compose"]] + [(a, a) for a, b in tab["reduce"]]
+    for k in range(0, len(items), 6):
+        c = Case(prop, "tables", lang=lang)
+        sid = c.new_store(lang)
+        qs = []
+        for j, (a, b) in enumerate(items[k:k + 6]):
+            t = cps("ta") + a + cps("lo x") + a
+            c.add(sid, 100 + j, t, j)
+            qs.append(cps("ta") + b)
+            qs.append(cps("ta"))
+        for q in qs:
+            c.search(sid, q, alt=[dict(l=cps("<"), r=cps(">"))])
+        c.search(sid, "")
+        cases.append(c)
+    return cases
+
+
+def gen_huge_store_cases(prop, lang, rnd, titles, ncases):
+    """stores of more than a thousand records that share a word, under limits above one hundred (the index's candidate
+    cap is 10 x limit): prefixes of the shared word and of a rare word; shuffled insertion orders for C07"""
+    cases = []
+    for _ in range(ncases):
+        n = rnd.randint(1050, 1300)
+        limit = rnd.choice([n, n + 5, 150, 200]) if prop in ("C03",) else rnd.choice([150, 200, 130])
+        shared = rand_word(rnd, script_letters(lang), 5, 7)
+        c = Case(prop, "huge", lang=lang)
+        sid = c.new_store(lang, limit=limit)
+        rt = distinct_ratings(rnd, n, hi=100000)
+        for i in range(n):
+            c.add(sid, i + 1, shared + " " + rand_word(rnd, script_letters(lang), 3, 6) + " %d" % i, rt[i])
+        if prop == "C03":
+            c.op(op="limit", sid=sid, limit=n + 1)
+            for rid in (1, n // 2, n):
+                for k in (1, 2, len(shared)):
+                    c.search(sid, shared[:k], expect=dict(prop="C03", kind="prefix", rid=rid, widx=1))
+        elif prop == "C07":
+            o1 = list(range(n)); rnd.shuffle(o1)
+            c.search(sid, shared, perms=[o1, list(reversed(range(n)))])
+            c.search(sid, shared[:2], perms=[o1])
+        else:
+            c.search(sid, shared, want=["qtok", "unlimited"])
+            c.search(sid, shared[:1], want=["qtok", "unlimited"])
         cases.append(c)
     return cases
